@@ -23,7 +23,7 @@ from bardolph.runtime import runtime_module                               # noqa
 
 rnd = random.Random(seed)
 NAMES = ['Top', 'a b', 'x#y', "it's", 'tab\there', 'end\\', '{curly}', 'ünï', '5', 'if', 'K', 'C:\\porch\\', '[b]', '%',
-         'Lamp ', ' Desk', 'Tile\t', '-', '{0}', '(', 'a{b']
+         'Lamp ', ' Desk', 'Tile\t', '-', '{0}', '(', 'a{b', 'Hall\\north', 'a\\tb']
 violations, stats = [], {'populations': 0, 'lights': 0}
 
 
